@@ -1,13 +1,15 @@
 """C15 — conditionals."""
 from . import engprop, gen
 
-F = [gen.Feats(cond=True), gen.Feats(cond=True, named=True), gen.Feats(cond=True, look=False, atomic=False)]
+F = [gen.Feats(cond=True), gen.Feats(cond=True, named=True), gen.Feats(cond=True, look=False, atomic=False), gen.Feats(cond=True, refs_closed=False)]
 CFG = {
     "prop": "C15", "theorems": ["C15_reference_conditional", "C15_conditional_follows_reference", "C15_conditional_follows_reference_all", "C15_nested_conditional_refuted"], "feats": F, "n_quick": 600, "n_thorough": 12000, "products": False,
     "tiers": ("t2", "run", "sem"), "k_base_quick": 14, "k_extra_quick": 8, "k_base_thorough": 80, "k_extra_thorough": 40,
     "corpus": ["(?((?(b)a))b|a)", "^(\\()?a+(?(1)\\))$", "^(?(a)ab)\\w+$", "^(?(a+)ab)$", "^(?:(x)y(?(1)z))+$", "^(a)(?(1)b)c$", "^(?>(x)(?(1)y))z$",
-               "(a)?(?(1)b|c)", "(?(1)a|b)", "(a)(?(1))", "(?<n>a)?(?(<n>)b|c)", "(?:(a)|b)(?(1)c|d)", "((?(2)a|b)(c)?)*", "(?(?=a)ab|c)", "(?(?!a)b|a)c"],
-    "extra_texts": ["(a", "(a)", "ab", "ac", "abc", "bc", "cb", "aab", "xyzxy", "xyz", "5x"],
+               "(a)?(?(1)b|c)", "(?(1)a|b)", "(a)(?(1))", "(?<n>a)?(?(<n>)b|c)", "(?:(a)|b)(?(1)c|d)", "((?(2)a|b)(c)?)*", "(?(?=a)ab|c)", "(?(?!a)b|a)c",
+               # a condition on the group it sits inside, across iterations of a repeat
+               "(?:x((?(1)a|b)))+", "((?(1)a|b))+", "(x(?(1)a|b))+", "(?:(a)|b(?(1)c|d))+", "(?:x((?(1)a|b))y?)*", "(?:(x)|((?(2)a|b)))+", "((?(1)x|a))*?b", "(a|(?(1)b|c)x)+"],
+    "extra_texts": ["(a", "(a)", "ab", "ac", "abc", "bc", "cb", "aab", "xyzxy", "xyz", "5x", "xaxa", "xbxa", "xaxb", "xbxaxa", "bdc", "aab", "baxb"],
     "alpha": ["a", "b", "c", "x", "-"],
 }
 
